@@ -22,7 +22,10 @@ Record runcfg := {
 Record rescfg := {
   s_pre : list (option (list (str * fsel)));
   s_fx : option (list (str * fsel));
-  s_cfg : runcfg
+  s_cfg : runcfg;
+  s_prefail : list str         (* non-empty: the folder is instead pre-filled by ONE full sequential run in which
+                                  these functions raise (ZeroDivisionError, rule code_mod3); they do not raise in the
+                                  observed run; only with storages that dump inside the task *)
 }.
 
 Record case := {
@@ -169,7 +172,13 @@ Definition run_one (c : case) (r : runcfg) : result robs :=
 (* a run on an existing store (Model/ParResume on the store left by Model/MapResume's sequential runs) *)
 Definition resume_one (c : case) (r : rescfg) : result robs :=
   match resume_model (case_body c) (dis_of c (s_cfg r)) (q_funcs c) (gens_of c) (q_inputs c) (q_internal c)
-                     (out_pos c) (s_pre r) (s_fx r) (r_pis (s_cfg r)) with
+                     (out_pos c)
+                     (match s_prefail r with
+                      | [] => None
+                      | names => Some (fun f kw => if mem_str (fname f) names && code_mod3 (sym_app f kw)
+                                                   then Err ZeroDivisionError else case_body c f kw)
+                      end)
+                     (s_pre r) (s_fx r) (r_pis (s_cfg r)) with
   | Err e => Err e
   | Ok o =>
       Ok {| ro_outs := rv_outs o;
@@ -394,12 +403,18 @@ Definition spec_ok (c : case) (o : sx) : bool :=
                  a full final run returns / leaves exactly the denoted arrays with every call made exactly once *)
               && forallb (fun rx => match dec_run t blocks (snd rx) with
                                     | Some (outs, log, pre) =>
-                                        submultiset (pre ++ log) calls
-                                        && barrier_from (q_funcs c) calls pre log
-                                        && match s_fx (fst rx) with
-                                           | None => outs_eqb outs want && multiset_eqb (pre ++ log) calls
-                                           | Some _ => true
-                                           end
+                                        match s_prefail (fst rx) with
+                                        | [] =>
+                                            submultiset (pre ++ log) calls
+                                            && barrier_from (q_funcs c) calls pre log
+                                            && match s_fx (fst rx) with
+                                               | None => outs_eqb outs want && multiset_eqb (pre ++ log) calls
+                                               | Some _ => true
+                                               end
+                                        | _ =>   (* after a run that raised: the failed call is made again *)
+                                            barrier_from (q_funcs c) calls pre log
+                                            && match s_fx (fst rx) with None => outs_eqb outs want | Some _ => true end
+                                        end
                                     | None => false
                                     end) (combine (q_resume c) (skipn (length (q_runs c)) rs))
           | None => false
